@@ -119,6 +119,13 @@ func strEq(a, b value) *Term {
 			return Bool(sa == sb)
 		}
 	}
+	// two shortest-round-trip renderings of floats are equal exactly when the floats are
+	// bit-identical
+	if sa, ok := a.(*SymStr); ok && sa.flt != nil {
+		if sb, ok := b.(*SymStr); ok && sb.flt != nil && sa.fltF == sb.fltF {
+			return Eq(sa.flt, sb.flt)
+		}
+	}
 	if strLen(a) != strLen(b) {
 		return termFalse
 	}
